@@ -446,7 +446,8 @@ func (vc *VC) callEffects(eff *Effects, call *ast.CallExpr, info *types.Info, de
 			} else if sel.Kind() == types.FieldVal {
 				key := vc.fieldFuncKey(sel, sel.Obj().(*types.Var))
 				if spec, ok := vc.prog.Specs[key]; ok {
-					vc.specEffects(eff, spec, nil, key)
+					fsig, _ := sel.Obj().Type().Underlying().(*types.Signature)
+					vc.specEffectsSig(eff, spec, fsig, key)
 					return
 				}
 				eff.all = true
@@ -514,6 +515,14 @@ func (vc *VC) callEffects(eff *Effects, call *ast.CallExpr, info *types.Info, de
 
 // specEffects maps a contract's modifies clause to array effects (whole arrays: conservative).
 func (vc *VC) specEffects(eff *Effects, spec *FuncSpec, fn *types.Func, key string) {
+	var sig *types.Signature
+	if fn != nil {
+		sig, _ = fn.Type().(*types.Signature)
+	}
+	vc.specEffectsSig(eff, spec, sig, key)
+}
+
+func (vc *VC) specEffectsSig(eff *Effects, spec *FuncSpec, sig *types.Signature, key string) {
 	if spec.ModAll {
 		eff.all = true
 		eff.why = append(eff.why, "modifies * of "+shortKey(key))
@@ -532,6 +541,16 @@ func (vc *VC) specEffects(eff *Effects, spec *FuncSpec, fn *types.Func, key stri
 		}
 	} else {
 		env.pkg = vc.pkgForKey(key)
+	}
+	if sig != nil {
+		if sig.Recv() != nil && sig.Recv().Name() != "" {
+			env.vars[sig.Recv().Name()] = TV{nil, sig.Recv().Type()}
+		}
+		for i := 0; i < sig.Params().Len(); i++ {
+			if p := sig.Params().At(i); p.Name() != "" {
+				env.vars[p.Name()] = TV{nil, p.Type()}
+			}
+		}
 	}
 	for _, m := range spec.Modifies {
 		if m.K == "call" && m.X.K == "id" && m.X.Name == "contents" && len(m.Args) == 1 {
@@ -579,6 +598,10 @@ func (vc *VC) specEffects(eff *Effects, spec *FuncSpec, fn *types.Func, key stri
 			}
 		case "un":
 			bt := env.staticType(m.X)
+			if bt == nil {
+				eff.all = true
+				continue
+			}
 			if p, ok := bt.Underlying().(*types.Pointer); ok {
 				vc.ptrTargetEffect(eff, p.Elem(), nil)
 			} else {
